@@ -315,7 +315,8 @@ def _expand_state_inner(task):
                     for extra in spec.get("extra_judges", []):
                         from .judge import EXTRA
                         V.extend(EXTRA[extra](T))
-                    if spec.get("continuation") and not V and res.ok and a[0] == "measure":
+                    if spec.get("continuation") and res.ok and a[0] == "measure" and not any(
+                            v["sig"]["property"] == spec["prop"] for v in V):
                         V.extend(continuation_c05(T, w1, m0))
                     if twin == "c08":
                         V.extend(TW.compare_c08(T, leaves_t, list(m0.ref.names), m0.ref.dims, Obs))
@@ -486,6 +487,10 @@ def explore(spec_name, tier, seed, nproc=None, log=print):
                     seen.add((wi, key))
                     frontier.append((wi, h))
             stats["per_depth"].append({"depth": d, "expanded": len(results), "new_states": len(frontier)})
+            if frontier:
+                step = max(1, len(frontier) // 3)
+                stats["sample_histories"] = [{"world": spec["worlds"][wi][0], "history": [it[:3] for it in h]}
+                                             for wi, h in frontier[::step][:3]]
             log(f"[{spec_name}] depth {d}: expanded {len(results)} states, {stats['transitions']} transitions, "
                 f"{len(violations)} violating transitions, next frontier {len(frontier)}  ({time.time() - t0:.0f}s)")
             if stats["states"] + len(frontier) > state_cap and d < depth:
